@@ -835,9 +835,18 @@ class Ev:
                 return EnumV(ci, v)
             names = [n for n, _, _ in self._all_fields(ci)]
             fields = {}
-            for i, a in enumerate(args):
+            pos = []
+            for a in args:
+                if isinstance(a, ast.Starred):
+                    sv = self.ev(a.value, env, module)
+                    if not isinstance(sv, Tup):
+                        raise Unsupported("* of a non-tuple value")
+                    pos.extend(sv.items)
+                else:
+                    pos.append(self.ev(a, env, module))
+            for i, a in enumerate(pos):
                 if i < len(names):
-                    fields[names[i]] = self.ev(a, env, module)
+                    fields[names[i]] = a
             for k, v in kws.items():
                 try:
                     fields[k] = self.ev(v, env, module)
@@ -1023,6 +1032,14 @@ class Ev:
             k = self.ev(target.slice, env, self.module)
             d = env[target.value.id]
             env[target.value.id] = DictV([(kk, vv) for kk, vv in d.items if not _same(kk, k)] + [(k, v)])
+        elif isinstance(target, (ast.Tuple, ast.List)) and sum(isinstance(t, ast.Starred) for t in target.elts) == 1 and isinstance(v, Tup) and len(v.items) >= len(target.elts) - 1:
+            i = next(k for k, t in enumerate(target.elts) if isinstance(t, ast.Starred))
+            after = len(target.elts) - i - 1
+            for t, x in zip(target.elts[:i], v.items[:i]):
+                self.bind(t, x, env)
+            self.bind(target.elts[i].value, Tup(list(v.items[i:len(v.items) - after])), env)
+            for t, x in zip(target.elts[i + 1:], v.items[len(v.items) - after:]):
+                self.bind(t, x, env)
         elif isinstance(target, (ast.Tuple, ast.List)):
             if isinstance(v, Tup) and len(v.items) == len(target.elts):
                 for t, x in zip(target.elts, v.items):
